@@ -144,10 +144,16 @@ func (s *DefaultSaftyRules) CheckProposal(proposal, parent QuorumCertInterface, 
 	// 检查justify的所有vote签名
 	justifySigns := parent.GetSignsInfo()
 	validCnt := 0
+	// every member counts once, however often its signature is listed
+	counted := map[string]bool{}
 	for _, v := range justifySigns {
 		if !isInSlice(v.GetAddress(), justifyValidators) {
 			continue
 		}
+		if counted[v.GetAddress()] {
+			continue
+		}
+		counted[v.GetAddress()] = true
 		// 签名和公钥是否匹配
 		if ok, _ := s.Crypto.VerifyVoteMsgSign(v, parent.GetProposalId()); !ok {
 			return InvalidVoteSign
